@@ -15,7 +15,7 @@ PROP = dict(
                "by the world stream: from then on every request is refused with 401 (a note dropped, `as=` refused as from a non-root "
                "session) and has no effect (theorems logout_on_unreadable_account, logged_out_refused, logged_out_cannot_act_for_others; "
                "monitor on every generated history). Found and repaired this way: the logged-out session kept its level (fix: c1d0cf3).",
-    level_note="{acc}'s account creation/update body, credential validators (the 'requires more validation' clause), token expiry and "
+    level_note="Credential validation is modelled for a login which brings no credential response (loginV, credMissing: the validators of the level, the 'validated' feature of the record and of the token, the account's validated credentials; the answers of a validator to a response are not). {acc}'s account creation/update body, token expiry and "
                "the {login scheme=reset} path are not modelled. Found and repaired: {acc} with an unknown temporary scheme crashed the "
                "server (fix: f6ef13f).",
     technique="Lean 4 proof (case analysis of the transcribed gate state machine) + differential correspondence through Session.dispatch + "
@@ -23,12 +23,13 @@ PROP = dict(
     modules=["TinodeVerif.Props.C11", "TinodeVerif.Props.C11w"],
     theorems=[T + n for n in ["before_handshake", "before_login", "executed_as_logged_in", "only_root_on_behalf", "root_on_behalf",
                               "login_at_most_once", "failed_login_leaves_unauthenticated", "login_success_only", "login_success",
+                              "loginV_complete", "missing_credentials_leave_unauthenticated", "token_validated_only_when_complete", "cred_missing_iff",
                               "version_immutable", "handshake_version_supported", "sender_is_servers",
                               "logout_on_unreadable_account", "logged_out_refused", "logged_out_cannot_act_for_others"]],
     streams=[gate.gate_stream(), world.world_stream("C11")],
     seeds=dict(quick=1, thorough=4),
     rule="random sequences of 4-20 messages on a fresh session (250 cases quick, 1500 thorough per seed): the ten client message kinds, "
-         "14 version strings, 17 authenticator outcomes, token re-login, unknown schemes, on-behalf-of data with valid, invalid and "
+         "14 version strings, 17 authenticator outcomes, token re-login, in a third of the histories a credential validator required for the `auth` level with and without a validated credential on the account (login answered 300, the token of that answer presented again), unknown schemes, on-behalf-of data with valid, invalid and "
          "ill-formed users and levels; non-trivial = every message line",
     assumptions=["one session, requests processed one at a time; the authenticator behind scheme `vfake` is scripted by the op line"],
     trusted=["gate stream: the Go harness drives the real Session.dispatch of a fresh session; handlers behind the gate see a topic name "
